@@ -14,6 +14,20 @@ from .stmts import Engine
 
 QUICK_MS = 10000
 THOROUGH_MS = 60000
+SCALE = 1.0          # solver budgets are wall-clock: they are stretched when the machine is oversubscribed (see load_factor)
+
+
+def load_factor():
+    """How much slower than an idle core this process currently runs (1.0 .. 6.0), from a fixed CPU-bound probe."""
+    best = None
+    for _ in range(3):
+        t = time.perf_counter()
+        acc = 0
+        for i in range(400000):
+            acc += i * i
+        d = time.perf_counter() - t
+        best = d if best is None else min(best, d)
+    return max(1.0, min(6.0, best / 0.032))
 
 
 class Unfolder:
@@ -102,6 +116,7 @@ class Unfolder:
 
 def _discharge(ob, timeout_ms, unfolder=None, lemmas=(), twin_lemmas=()):
     t0 = time.time()
+    timeout_ms = int(timeout_ms * SCALE)
     if not ob.expect_sat:
         # witness stage: existential hypotheses are skolemised and the universal conjuncts of the negated goal are instantiated at
         # the skolem constants (sound: instances of a universally quantified assumption); decides goals of the form
@@ -111,7 +126,7 @@ def _discharge(ob, timeout_ms, unfolder=None, lemmas=(), twin_lemmas=()):
             if insts:
                 for mbqi in (False, True):
                     st = z3.Solver()
-                    st.set("timeout", min(timeout_ms, 2000))
+                    st.set("timeout", min(timeout_ms, int(2000 * SCALE)))
                     st.set("smt.mbqi", mbqi)
                     for p in hyps + insts:
                         st.add(p)
@@ -128,18 +143,18 @@ def _discharge(ob, timeout_ms, unfolder=None, lemmas=(), twin_lemmas=()):
             stop = False
             for depth in (1, 2, 3):
                 try:
-                    r = unfolder.attempt(ob.pc, ob.goal, depth, min(timeout_ms, 500 + 700 * depth), extra=twin_lemmas,
+                    r = unfolder.attempt(ob.pc, ob.goal, depth, min(timeout_ms, int((500 + 700 * depth) * SCALE)), extra=twin_lemmas,
                                          seed=seed, mbqi=mbqi)
                 except z3.Z3Exception:
                     stop = True
                     break
                 if r == z3.unsat:
                     return "proved", f"z3(unfold depth {depth})", (time.time() - t0) * 1000, None
-            if stop or (time.time() - t0) > 12:
+            if stop or (time.time() - t0) > 12 * SCALE:
                 break
         if unfolder.specs:
             try:
-                if unfolder.attempt(ob.pc, ob.goal, 2, min(timeout_ms, 4000), with_axioms=True, extra=twin_lemmas) == z3.unsat:
+                if unfolder.attempt(ob.pc, ob.goal, 2, min(timeout_ms, int(4000 * SCALE)), with_axioms=True, extra=twin_lemmas) == z3.unsat:
                     return "proved", "z3(definitional axioms, e-matching)", (time.time() - t0) * 1000, None
             except z3.Z3Exception:
                 pass
@@ -161,7 +176,7 @@ def _discharge(ob, timeout_ms, unfolder=None, lemmas=(), twin_lemmas=()):
         if len(hyps) == len(ob.pc):
             continue
         st = z3.Solver()
-        st.set("timeout", min(timeout_ms, 3000))
+        st.set("timeout", min(timeout_ms, int(3000 * SCALE)))
         for p in hyps:
             st.add(p)
         st.add(z3.Not(ob.goal))
@@ -256,8 +271,10 @@ def _has_quant(e):
 def verify_one(task):
     """task = (contract_module, qualname, timeout_ms). Returns a plain-data record."""
     modname, q, timeout_ms = task
+    global SCALE
+    SCALE = load_factor()
     t0 = time.time()
-    rec = {"function": q, "obligations": [], "status": "ok", "paths": 0, "source": None}
+    rec = {"function": q, "load_factor": round(SCALE, 2), "obligations": [], "status": "ok", "paths": 0, "source": None}
     try:
         cm = importlib.import_module(modname)
         reg = cm.REG
@@ -289,7 +306,7 @@ def verify_one(task):
             # a changed function typically breaks one clause on many paths: after three undischarged instances of the same
             # named obligation the remaining instances are not attempted (they stay 'unknown' = not proved); likewise once
             # the function's time budget is used up. Neither happens on a tree where everything is discharged.
-            if not ob.expect_sat and (undischarged.get(ob.name, 0) >= 3 or time.time() - t0 > budget):
+            if not ob.expect_sat and (undischarged.get(ob.name, 0) >= 3 or time.time() - t0 > budget * SCALE):
                 why = "skipped: same-named obligation already undischarged 3x" if undischarged.get(ob.name, 0) >= 3 else "skipped: function time budget used up"
                 rec["obligations"].append({"name": ob.name, "kind": ob.kind, "line": ob.line, "tags": list(ob.tags),
                                            "result": "unknown", "backend": why, "ms": 0.0, "model": {"reason": why}})
